@@ -18,7 +18,7 @@ def graph_clustering(adjacency_matrix, nodes, clustering='cc', **kwargs):
 
     Returns: DataFrame with columns seq, cluster assignment 
     """
-    edges = np.array(adjacency_matrix)[:, :2]
+    edges = np.array(adjacency_matrix).reshape(-1, 3)[:, :2]
 
     if clustering == 'DBSCAN':
         a = adjacency_matrix
